@@ -1,4 +1,5 @@
 import Rscp.Props.C09
+import Rscp.Tie.Client
 
 #print axioms Rscp.Props.C09.first_frame_is_auth
 #print axioms Rscp.Props.C09.user_after_grant
@@ -6,3 +7,17 @@ import Rscp.Props.C09
 #print axioms Rscp.Props.C09.auth_reply_total
 #print axioms Rscp.Props.C09.receive_nonempty
 #print axioms Rscp.Props.C09.no_panic
+#print axioms Rscp.Tie.Client.shape_rscp_NewClient
+#print axioms Rscp.Tie.Client.shape_rscp_Client_resetCipher
+#print axioms Rscp.Tie.Client.shape_rscp_Client_send
+#print axioms Rscp.Tie.Client.shape_rscp_Client_receive
+#print axioms Rscp.Tie.Client.shape_rscp_Client_connect
+#print axioms Rscp.Tie.Client.shape_rscp_Client_authenticate
+#print axioms Rscp.Tie.Client.shape_rscp_Client_Disconnect
+#print axioms Rscp.Tie.Client.shape_rscp_Client_Send
+#print axioms Rscp.Tie.Client.shape_rscp_Client_SendMultiple
+#print axioms Rscp.Tie.Client.shape_rscp_CreateRequest
+#print axioms Rscp.Tie.Client.shape_rscp_readRequestSlice
+#print axioms Rscp.Tie.Client.shape_rscp_readRequestSliceReader
+#print axioms Rscp.Tie.Client.leaf_authenticate_hideLog_src
+#print axioms Rscp.Tie.Client.leaf_authenticate_hideLog_args
